@@ -140,6 +140,14 @@ def follow(links, cache, containers, failed, when):
                     'missing-after-failed-configure:' + when,
                     'configure of cache/%s (generation %s) failed, the entry '
                     'is still cached and not running' % (inst, ent['gen']))
+        clash = containers.get(ent.get('uname'))
+        if clash is not None and clash['gen'] != ent['gen']:
+            return ('C13:running-not-matching-cache:missing:'
+                    'unique-name-collision:' + when,
+                    'cache/%s (generation %s) is not running; the unique '
+                    'name %s its (ctime, inode) give is the name of the '
+                    'container of generation %s' % (
+                        inst, ent['gen'], ent['uname'], clash['gen']))
         return ('C13:running-not-matching-cache:missing:' + when,
                 'cache/%s (generation %s) can be configured and never '
                 'finished, but there is no running/%s' % (
